@@ -401,7 +401,7 @@ class Gen:
             return T("uint", n=self.width())
         return T("int", n=self.width())
 
-    def gen_array(self, ctx_file: int, chain: List[T], depth: int, elem: Optional[T] = None) -> T:
+    def gen_array(self, ctx_file: int, chain: List[T], depth: int, elem: Optional[T] = None, num: int = 0) -> T:
         if elem is None:
             r = self.rng.random()
             if r < 0.55:
@@ -411,7 +411,7 @@ class Gen:
             elif r < 0.8 and self.p.allow_alias:
                 elem = self.pick_alias(ctx_file, chain, depth + 1)
             elif depth < self.p.max_depth:
-                elem = self.pick_msg(ctx_file, chain, depth + 1)
+                elem = self.pick_msg(ctx_file, chain, depth + 1, hint_num=num)
             else:
                 elem = self.gen_base()
         eb = max(1, elem.nbits())
@@ -443,14 +443,16 @@ class Gen:
         self._finish(t)
         return t
 
-    def pick_msg(self, ctx_file, chain, depth) -> T:
+    def pick_msg(self, ctx_file, chain, depth, hint_num: int = 0) -> T:
         vis = self._visible(ctx_file, chain, ("msg",))
-        if vis and self.rng.random() < 0.35:
+        if vis and self.rng.random() < 0.35 and not hint_num:
             return self.rng.choice(vis)
-        return self.gen_msg(ctx_file, chain, depth)
+        return self.gen_msg(ctx_file, chain, depth, hint_num=hint_num)
 
-    def gen_type(self, ctx_file: int, chain: List[T], depth: int) -> T:
+    def gen_type(self, ctx_file: int, chain: List[T], depth: int, num: int = 0, force_array: bool = False) -> T:
         r = self.rng.random()
+        if force_array:
+            return self.gen_array(ctx_file, chain, depth, num=num)
         if r < 0.45:
             return self.gen_base()
         if r < 0.55 and self.p.allow_enum:
@@ -458,12 +460,12 @@ class Gen:
         if r < 0.68 and self.p.allow_alias:
             return self.pick_alias(ctx_file, chain, depth)
         if r < 0.85:
-            return self.gen_array(ctx_file, chain, depth)
+            return self.gen_array(ctx_file, chain, depth, num=num)
         if depth < self.p.max_depth:
-            return self.pick_msg(ctx_file, chain, depth + 1)
+            return self.pick_msg(ctx_file, chain, depth + 1, hint_num=num)
         return self.gen_base()
 
-    def gen_msg(self, ctx_file: int, chain: List[T], depth: int, top: bool = False) -> T:
+    def gen_msg(self, ctx_file: int, chain: List[T], depth: int, top: bool = False, hint_num: int = 0) -> T:
         m = T("msg", name=self._fresh("pascal"))
         if top:
             m.file, m.parent = 0, None
@@ -476,6 +478,11 @@ class Gen:
         nums = set()
         while len(nums) < nf:
             nums.add(self.rng.randint(1, 255) if self.rng.random() < 0.3 else self.rng.randint(1, 12))
+        # a nested message often re-uses the number of the field that contains it (two data
+        # indexers with the same field number at different depths)
+        reuse = hint_num if (hint_num and self.rng.random() < 0.6) else 0
+        if reuse:
+            nums.add(reuse)
         nums = list(nums)
         if self.rng.random() < 0.5:
             nums.sort()
@@ -485,7 +492,8 @@ class Gen:
         for num in nums:
             if self.bits_left <= 0 or self.leaves_left <= 0:
                 break
-            ft = self.gen_type(fi, inner, depth)
+            ft = self.gen_type(fi, inner, depth, num=num,
+                               force_array=(num == reuse and self.rng.random() < 0.7))
             nb, nl = ft.nbits(), ft.nleaves()
             if nb > self.bits_left or nl > self.leaves_left:
                 ft = T("bool")
